@@ -129,6 +129,14 @@ def gen_bmq(rnd):
     return "\n".join(lines)
 
 
+def flavor_for(rnd, bmq):
+    """the real-number flavor only accepts circuits whose matrices are real"""
+    ops = [l.split()[0] for l in bmq.splitlines() if l.startswith("\t")]
+    if any(o in ("y", "s", "t") for o in ops):
+        return "seq_hardcoded_complex"
+    return rnd.choice(["seq_hardcoded_real", "seq_hardcoded_complex"])
+
+
 def jobs_for(rnd, tier):
     """(name, function(work, gmp) -> artefacts)"""
     jobs = []
@@ -149,7 +157,7 @@ def jobs_for(rnd, tier):
             jobs.append(("neuralbond:%s:%s" % (os.path.basename(net), mode), lambda w, g, n=net, m=mode: pipe_neuralbond(w, g, n, m)))
     for k in range(2 if tier == "quick" else 8):
         bmq = gen_bmq(rnd)
-        fl = rnd.choice(["seq_hardcoded_real", "seq_hardcoded_complex"])
+        fl = flavor_for(rnd, bmq)
         jobs.append(("bmqsim:circ%d:%s" % (k, fl), lambda w, g, b=bmq, f=fl: pipe_bmqsim(w, g, b, f)))
     return jobs
 
